@@ -105,6 +105,7 @@ func H_C18_registry() {
 	s := vString("tag", n)
 	before := len(tagRegistry)
 	_, had := tagRegistry[s]
+	vAssert(len(GetAllTags()) == before, "all-tags-before-registration")
 	t1, p1 := vTryRegister(s)
 	if !vSpecTag(s) {
 		vAssert(p1, "invalid-name-panics")
